@@ -47,7 +47,9 @@ impl FileStorage {
     }
 
     fn apply_wal(file: &mut File, wal: &mut WriteAheadLog) -> Result<(), DbError> {
-        for record in wal.records()? {
+        let mut records = wal.records()?;
+
+        while let Some(record) = records.pop() {
             Self::apply_wal_record(file, record)?;
         }
 
